@@ -13,6 +13,9 @@ Rec == ndJsonDeserialize(IOEnv.TRACE)
 CallFailed(e, c) ==
      (IF ~c.started \/ ~c.done THEN {"C06_Terminates"} ELSE {})
   \cup (IF c.outcomes > 1 THEN {"C06_ExactlyOne"} ELSE {})
+  \* a put / find_node / get_closest_nodes caller whose reply channel was dropped without an answer has NO outcome: the public
+  \* API panics in the caller's thread ("Query was dropped before sending a response")
+  \cup (IF c.result = "Dropped" THEN {"C06_CallAnswered"} ELSE {})
   \cup (IF c.done /\ c.dur_ms > (c.contacted + 2) * (e.tmax_ms + e.cadence_ms) THEN {"C06_Bounded"} ELSE {})
 \* C20: the statistics of each routing table equal the aggregate over the currently cached lookups:
 \* find_node lookups feed the DHT-size estimate only; get lookups feed all statistics of the table they used
@@ -29,6 +32,8 @@ Failed(e) == IF e.e = "cache" THEN CacheFailed(e) ELSE
   \cup (IF e.panicked \/ e.hung THEN {"C06_NodeAlive"} ELSE {})
   \* the request timeout (start 500 ms) adapts to observed round trips: without any reply slower than 500 ms it must not grow
   \cup (IF e.slow_replies = 0 /\ e.tmax_ms > 500 THEN {"C06_TimeoutOnlyGrowsWithSlowReplies"} ELSE {})
+  \* the node died of an arithmetic overflow (the statistics counters are the node's only unchecked-looking arithmetic)
+  \cup (IF e.arith_panic THEN {"C20_NoUnderflow"} ELSE {})
   \cup (IF e.leak THEN {"C20_NoLeak"} ELSE {})
   \cup (IF e.inflight_live_at_quiescence > 0 THEN {"C20_NoLiveInflight"} ELSE {})
 Init == l = 1
